@@ -286,6 +286,27 @@ fn event_probe(dm: &str, rep: &mut Report) {
 
 /// read-only probes: every attempt must raise error.execution and leave the value intact
 fn readonly_probe(dm: &str, rep: &mut Report) {
+    // event shapes: 0 = string content, 1 = params {list:[1,2,3], m:{k:1}, n:5}, 2 = array content [10,20]
+    let mut deep: Vec<(&str, String, &str, u8)> = Vec::new();
+    for (loc, shape) in [
+        ("_event.data.list[1]", 1u8),
+        ("_event.data.list[0]", 1),
+        ("_event.data.m.k", 1),
+        ("_event.data.m['k']", 1),
+        ("_event.data.n", 1),
+        ("_event.data['n']", 1),
+        ("_event.data['list'][2]", 1),
+        ("_event['name']", 1),
+        ("_event.data[0]", 2),
+        ("_event.data[1]", 2),
+        ("_ioprocessors.scxml.location", 0),
+        ("_ioprocessors['scxml']", 0),
+        ("_ioprocessors.scxml", 0),
+    ] {
+        let var = if loc.starts_with("_io") { "_ioprocessors" } else { "_event" };
+        deep.push(("assign-deep", format!(r#"<assign location="{}" expr="99"/>"#, loc), var, shape));
+        deep.push(("script-assign-deep", format!("<script>{} = 99</script>", loc), var, shape));
+    }
     let attempts: Vec<(&str, String, &str)> = {
         let mut v: Vec<(&str, String, &str)> = Vec::new();
         for var in ["_sessionid", "_name", "_ioprocessors", "_event"] {
@@ -307,8 +328,9 @@ fn readonly_probe(dm: &str, rep: &mut Report) {
         }
         v
     };
-    let dump = "mark('ro', _sessionid, _name, _event.name, _event.type, _event.sendid, _event.origin, _event.origintype, _event.invokeid, _event.data)";
-    for (kind, attempt, var) in attempts {
+    let dump = "mark('ro', _sessionid, _name, _event.name, _event.type, _event.sendid, _event.origin, _event.origintype, _event.invokeid, _event.data, _ioprocessors.scxml.location)";
+    let all: Vec<(&str, String, &str, u8)> = attempts.into_iter().map(|(k, a, v)| (k, a, v, 0u8)).chain(deep.into_iter()).collect();
+    for (kind, attempt, var, shape) in all {
         rep.evaluations += 1;
         let xml = format!(
             r##"<scxml xmlns="http://www.w3.org/2005/07/scxml" version="1.0" name="rodoc" datamodel="{dm}" initial="a">
@@ -350,8 +372,23 @@ fn readonly_probe(dm: &str, rep: &mut Report) {
             origin: Some("org".into()),
             origin_type: Some("ot".into()),
             invoke_id: None,
-            param_values: None,
-            content: Some(Data::String("payload".into())),
+            param_values: if shape == 1 {
+                let arc = rufsm::datamodel::create_data_arc;
+                let mut m = std::collections::HashMap::new();
+                m.insert("k".to_string(), arc(Data::Integer(1)));
+                Some(vec![
+                    rufsm::fsm::ParamPair::new("list", &Data::Array(vec![arc(Data::Integer(1)), arc(Data::Integer(2)), arc(Data::Integer(3))])),
+                    rufsm::fsm::ParamPair::new("m", &Data::Map(m)),
+                    rufsm::fsm::ParamPair::new("n", &Data::Integer(5)),
+                ])
+            } else {
+                None
+            },
+            content: match shape {
+                0 => Some(Data::String("payload".into())),
+                2 => Some(Data::Array(vec![rufsm::datamodel::create_data_arc(Data::Integer(10)), rufsm::datamodel::create_data_arc(Data::Integer(20))])),
+                _ => None,
+            },
         };
         r.send_event(ev.clone());
         wait_stable(&mut r, 1);
@@ -380,7 +417,7 @@ fn readonly_probe(dm: &str, rep: &mut Report) {
         let after = &dumps[1];
         // before: _event.name is "try", after: "check"; everything else must be identical and as set
         let mut changed = Vec::new();
-        for (i, fname) in ["_sessionid", "_name", "_event.name", "_event.type", "_event.sendid", "_event.origin", "_event.origintype", "_event.invokeid", "_event.data"].iter().enumerate() {
+        for (i, fname) in ["_sessionid", "_name", "_event.name", "_event.type", "_event.sendid", "_event.origin", "_event.origintype", "_event.invokeid", "_event.data", "_ioprocessors.scxml.location"].iter().enumerate() {
             let b = &before[i];
             let a = &after[i];
             // the second dump runs in the same microstep (onentry of the target state): same event
